@@ -201,11 +201,11 @@ func (e *env) checkAPISubs() {
 					got = append(got, d)
 				}
 			}
+			want := e.expectedFor(false, false, s.prefix, s.cond, "api.feed")
 			if s.skipCmp || e.fuzzy {
 				s.skipCmp = false
 				continue
 			}
-			want := e.expectedFor(false, false, s.prefix, s.cond)
 			if !sameDeliveries(got, want, true) {
 				e.failf("MODEL/PUSHED: %s: subscription %s (prefix %q%s) reported%s, expected%s", c.name, s.id, s.prefix, s.cond.text(), fmtDeliveries(got), fmtDeliveries(want))
 			}
@@ -244,8 +244,12 @@ func (e *env) execAPI(op opSpec, k string, c *apiClient) {
 	visible := m != nil
 	perm := visible && m.permits(false, false)
 	stats.Class("path:" + op.Kind)
-	if visible && !perm {
-		e.noteDenied(op.Kind, m)
+	switch op.Kind {
+	case "api.query", "api.qsub", "api.sub":
+	default:
+		if visible && !perm {
+			e.noteDenied(op.Kind, m)
+		}
 	}
 	id := c.newID()
 
